@@ -94,8 +94,13 @@ func (k Keeper) Authenticate(ctx sdk.Context, sourceChain, destinationChain, por
 	return flag
 }
 
+// ruleMetaEscaper escapes the identifier characters that are regular expression operators
+var ruleMetaEscaper = strings.NewReplacer("+", "\\+", "[", "\\[", "]", "\\]")
+
 // ConvWildcardToRegular convert wildcard to regular
 func ConvWildcardToRegular(wildcard string) string {
+	// '+', '[' and ']' are legal identifier characters and must match themselves only
+	wildcard = ruleMetaEscaper.Replace(wildcard)
 	regular := strings.Replace(wildcard, ".", "\\.", -1)
 	regular = strings.Replace(regular, "*", ".*", -1)
 	regular = "^" + regular + "$"
